@@ -207,12 +207,74 @@ void h_lz4_count(void) {
   if (r > 8) CQV_CANARY("lz4_count returns more than 8");
 }
 
-/* the arithmetic lemmas, for all arguments (loop free, SMT) */
+/* the arithmetic lemmas, for all arguments (loop free).  The combined statements are beyond every back end, so
+ * each proof is an explicit chain: every step is ASSERTED (a counted obligation) and only then assumed, so nothing
+ * is trusted; each step needs one small fact (a quotient fact per division, 255(x+y) = 255x + 255y for one pair,
+ * one sum of two inequalities, one cancellation).  Sums are taken apart in the order they are written, because
+ * re-association of 64-bit sums is what the SAT solver cannot do.  All steps close with cadical. */
+#define CQV_STEP(c, msg) __CPROVER_assert(c, msg); __CPROVER_assume(c)
+#define CQV_BIG ((size_t)1 << 52)
 void h_lemma_space(void) {
   size_t n = nondet_size_t(), cap = nondet_size_t(), B = nondet_size_t(), a = nondet_size_t(), l = nondet_size_t(),
          T = nondet_size_t(), m = nondet_size_t(), mo = nondet_size_t();
   __CPROVER_assume(LEM_SPACE_REQ(n, cap, B, a, l, T, m, mo));
   CQV_CANARY("lemma space: requires satisfiable");
+  const size_t ql = l / 255, qm = m / 255, qn = n / 255;
+  CQV_STEP(M255(ql) <= l && l - M255(ql) < 255 && ql <= l, "lemma space step 1: quotient l/255");
+  CQV_STEP(M255(qm) <= m && m - M255(qm) < 255 && qm <= m, "lemma space step 2: quotient m/255");
+  CQV_STEP(M255(qn) <= n && n - M255(qn) < 255 && qn <= n, "lemma space step 3: quotient n/255");
+  const size_t dT = T > a ? T - a : 0, dA = T > a ? 0 : a - T;
+  CQV_STEP(M255(a) + a == (a << 8), "lemma space step 4: 255a + a = 256a");
+  CQV_STEP(T <= a || M255(T) == M255(dT) + M255(a), "lemma space step 5: 255T = 255(T-a) + 255a");
+  CQV_STEP(T > a || M255(a) == M255(dA) + M255(T), "lemma space step 6: 255a = 255(a-T) + 255T");
+  CQV_STEP(M255(T) <= (a << 8), "lemma space step 7: hypothesis in product form 255T <= 256a");
+  const size_t s = a + l + m, R = (l << 8) + (m << 8);
+  /* X = T + max_out + 2 + m, taken apart in exactly the order the expressions are written (no re-association) */
+  const size_t v1 = 1 + ql, v2 = v1 + l, v3 = v2 + 2, v4 = v3 + qm;           /* v4 == max_out */
+  const size_t u1 = T + mo, u2 = u1 + 2, X = u2 + m;
+  CQV_STEP(mo == v4 && X <= 8 * CQV_SZ && mo <= 4 * CQV_SZ && s + 12 <= n, "lemma space step 8: max_out = ((1 + ql) + l + 2) + qm, ranges");
+  const size_t P1 = 255 + M255(ql), P2 = P1 + M255(l), P3 = P2 + 510, P4 = P3 + M255(qm);
+  CQV_STEP(M255(v1) == P1, "lemma space step 9a: 255(1+ql)");
+  CQV_STEP(M255(v2) == M255(v1) + M255(l), "lemma space step 9b: 255(1+ql+l) split");
+  CQV_STEP(M255(v2) == P2, "lemma space step 9c: 255(1+ql+l)");
+  CQV_STEP(M255(v3) == M255(v2) + 510 && M255(v3) == P3, "lemma space step 9d: 255(1+ql+l+2)");
+  CQV_STEP(M255(v4) == M255(v3) + M255(qm), "lemma space step 9e: 255*max_out split");
+  CQV_STEP(M255(mo) == P4, "lemma space step 9f: 255*max_out = P4");
+  CQV_STEP(M255(u1) == M255(T) + M255(mo), "lemma space step 9g: 255(T+max_out)");
+  CQV_STEP(M255(u2) == M255(u1) + 510, "lemma space step 9h: 255(T+max_out+2)");
+  CQV_STEP(M255(X) == M255(u2) + M255(m), "lemma space step 9i: 255X split");
+  const size_t W1 = M255(T) + P4, W2 = W1 + 510, W3 = W2 + M255(m);
+  CQV_STEP(M255(u1) == W1 && M255(u2) == W2 && M255(X) == W3, "lemma space step 9: 255X = ((255T + P4) + 510) + 255m");
+  CQV_STEP(M255(l) + l == (l << 8), "lemma space step 10: 255l + l = 256l");
+  CQV_STEP(M255(m) + m == (m << 8), "lemma space step 11: 255m + m = 256m");
+  CQV_STEP(M255(ql) + M255(l) <= (l << 8) && M255(qm) + M255(m) <= (m << 8), "lemma space step 12: 255(x/255) + 255x <= 256x for l and m");
+  CQV_STEP(P2 <= 255 + (l << 8), "lemma space step 13a: P2 <= 255 + 256l");
+  CQV_STEP(P3 <= (l << 8) + 765 && P3 <= CQV_BIG && M255(qm) <= CQV_BIG && M255(m) <= CQV_BIG, "lemma space step 13b: P3 <= 256l + 765");
+  const size_t A1 = P3 + 510, A2 = M255(qm) + M255(m), B1 = (l << 8) + 1275, B2 = (m << 8);
+  const size_t C = (P4 + 510) + M255(m), D = R + 1275;
+  CQV_STEP(A1 <= B1 && A2 <= B2 && B1 <= CQV_BIG && B2 <= CQV_BIG, "lemma space step 13c: A1 <= B1, A2 <= B2");
+  CQV_STEP(A1 + A2 <= B1 + B2, "lemma space step 13d: sum");
+  CQV_STEP(C == A1 + A2, "lemma space step 13e: regroup left");
+  CQV_STEP(D == B1 + B2, "lemma space step 13f: regroup right");
+  CQV_STEP(C <= D && D <= 4 * CQV_BIG, "lemma space step 13: P4 + 510 + 255m <= 256(l+m) + 1275");
+  CQV_STEP((s << 8) == (a << 8) + R, "lemma space step 14: 256s = 256a + R");
+  CQV_STEP(M255(T) <= CQV_BIG && (a << 8) <= CQV_BIG && R <= CQV_BIG && P4 <= CQV_BIG, "lemma space step 15: no wrap");
+  CQV_STEP(W3 == M255(T) + C, "lemma space step 16a: regroup");
+  CQV_STEP(M255(T) + C <= (a << 8) + D, "lemma space step 16b: sum of the inequalities");
+  CQV_STEP((a << 8) + D == (s << 8) + 1275, "lemma space step 16c: regroup right");
+  CQV_STEP(M255(X) <= (s << 8) + 1275, "lemma space step 17: 255X <= 256s + 1275");
+  CQV_STEP(((s + 12) << 8) == (s << 8) + 3072, "lemma space step 18: 256(s+12)");
+  CQV_STEP(((s + 12) << 8) <= (n << 8), "lemma space step 19: s + 12 <= n scaled by 256");
+  CQV_STEP(M255(X) + 1797 <= (n << 8), "lemma space step 20: 255X + 1797 <= 256n");
+  const size_t b1 = n + qn;
+  CQV_STEP(B == b1 + 16 && M255(b1) == M255(n) + M255(qn), "lemma space step 21: 255(n + n/255)");
+  CQV_STEP(M255(B) == M255(b1) + 4080, "lemma space step 22: 255B");
+  CQV_STEP(M255(n) + n == (n << 8), "lemma space step 23: 255n + n = 256n");
+  CQV_STEP((n << 8) + 3826 <= M255(B), "lemma space step 24: 256n + 3826 <= 255B");
+  CQV_STEP(M255(X) < M255(B), "lemma space step 25: 255X < 255B");
+  const size_t dX = X >= B ? X - B : 0;
+  CQV_STEP(X < B || M255(X) == M255(dX) + M255(B), "lemma space step 26: 255X = 255(X-B) + 255B when X >= B");
+  CQV_STEP(X < B, "lemma space step 27: X < B");
   __CPROVER_assert(LEM_SPACE_ENS(n, cap, B, a, l, T, m, mo), "lemma space: a sequence fits below a bound-sized capacity");
 }
 void h_lemma_ext(void) {
@@ -227,18 +289,105 @@ void h_lemma_inv(void) {
   __CPROVER_assume(LEM_INV_REQ(a, l, m, T, e1, r1, e2, r2, o2));
   CQV_CANARY("lemma inv: requires satisfiable");
   if (l >= 15 && m >= 19) CQV_CANARY("lemma inv: both lengths extended");
+  const size_t a2 = a + l + m;
+  const size_t dT = T > a ? T - a : 0, dA = T > a ? 0 : a - T;
+  CQV_STEP(e1 <= l && e2 <= m && o2 <= 6 * CQV_SZ && a2 <= 3 * CQV_SZ, "lemma inv step 1: ranges");
+  CQV_STEP(M255(a) + a == (a << 8), "lemma inv step 2: 255a + a = 256a");
+  CQV_STEP(T <= a || M255(T) == M255(dT) + M255(a), "lemma inv step 3: 255T = 255(T-a) + 255a");
+  CQV_STEP(T > a || M255(a) == M255(dA) + M255(T), "lemma inv step 4: 255a = 255(a-T) + 255T");
+  CQV_STEP(M255(T) <= (a << 8), "lemma inv step 5: hypothesis in product form 255T <= 256a");
+  CQV_STEP(M255(e1) <= l + 240, "lemma inv step 6: 255*e1 <= l + 240");
+  CQV_STEP(M255(e2) <= m + 236 && (m >= 19 || e2 == 0), "lemma inv step 7: 255*e2 <= m + 236, none when m < 19");
+  const size_t x1 = T + e1, x2 = x1 + l, x3 = x2 + e2;
+  const size_t K1 = M255(e1), K2 = K1 + M255(l), K3 = K2 + M255(e2), K = K3 + 765, R = (l << 8) + (m << 8);
+  CQV_STEP(M255(x1) == M255(T) + K1, "lemma inv step 8a: 255(T+e1) = 255T + K1");
+  CQV_STEP(M255(x2) == M255(x1) + M255(l), "lemma inv step 8b: 255(T+e1+l) = 255(T+e1) + 255l");
+  CQV_STEP(M255(x2) == M255(T) + K2, "lemma inv step 8c: 255(T+e1+l) = 255T + K2");
+  CQV_STEP(M255(x3) == M255(x2) + M255(e2), "lemma inv step 8d: 255(T+e1+l+e2) = 255(T+e1+l) + 255*e2");
+  CQV_STEP(M255(x3) == M255(T) + K3, "lemma inv step 8e: 255(T+e1+l+e2) = 255T + K3");
+  CQV_STEP(o2 == x3 + 3 && M255(o2) == M255(x3) + 765, "lemma inv step 8f: 255*o2 = 255(T+e1+l+e2) + 765");
+  CQV_STEP(M255(o2) == M255(T) + K, "lemma inv step 8: 255*o2 = 255T + K, K = 255(e1 + l + e2 + 3)");
+  CQV_STEP((a2 << 8) == (a << 8) + R, "lemma inv step 9: 256*a2 = 256a + R, R = 256(l + m)");
+  CQV_STEP(M255(l) + l == (l << 8), "lemma inv step 10: 255l + l = 256l");
+  CQV_STEP(K <= R, "lemma inv step 11: emitted bytes paid by consumed bytes, K <= R");
+  CQV_STEP(M255(T) <= ((size_t)1 << 50) && (a << 8) <= ((size_t)1 << 50) && R <= ((size_t)1 << 50), "lemma inv step 12a: no wrap");
+  CQV_STEP(M255(T) + K <= (a << 8) + R, "lemma inv step 12b: sum of the two inequalities");
+  CQV_STEP(M255(o2) <= (a2 << 8), "lemma inv step 12: conclusion in product form 255*o2 <= 256*a2");
+  const size_t d2 = o2 > a2 ? o2 - a2 : 0;
+  CQV_STEP(M255(a2) + a2 == (a2 << 8), "lemma inv step 13: 255a2 + a2 = 256a2");
+  CQV_STEP(o2 <= a2 || M255(o2) == M255(d2) + M255(a2), "lemma inv step 14: 255*o2 = 255(o2-a2) + 255*a2");
+  CQV_STEP(o2 <= a2 || M255(d2) <= a2, "lemma inv step 15: cancel 255*a2");
   __CPROVER_assert(LEM_INV_ENS(a, l, m, T, e1, r1, e2, r2, o2), "lemma inv: size invariant preserved by one sequence");
 }
 void h_lemma_last(void) {
   size_t n = nondet_size_t(), cap = nondet_size_t(), B = nondet_size_t(), a = nondet_size_t(), o = nondet_size_t(), q = nondet_size_t();
   __CPROVER_assume(LEM_LAST_REQ(n, cap, B, a, o, q));
   CQV_CANARY("lemma last: requires satisfiable");
+  const size_t r = n - a, qr = r / 255, qn = n / 255;
+  CQV_STEP(M255(qr) <= r && r - M255(qr) < 255 && qr <= r, "lemma last step 1: quotient (n-a)/255");
+  CQV_STEP(M255(qn) <= n && n - M255(qn) < 255 && qn <= n, "lemma last step 2: quotient n/255");
+  const size_t dO = o > a ? o - a : 0, dA = o > a ? 0 : a - o;
+  CQV_STEP(M255(a) + a == (a << 8), "lemma last step 3: 255a + a = 256a");
+  CQV_STEP(o <= a || M255(o) == M255(dO) + M255(a), "lemma last step 4: 255o = 255(o-a) + 255a");
+  CQV_STEP(o > a || M255(a) == M255(dA) + M255(o), "lemma last step 5: 255a = 255(a-o) + 255o");
+  CQV_STEP(M255(o) <= (a << 8), "lemma last step 6: hypothesis in product form 255o <= 256a");
+  const size_t y1 = o + r, y2 = y1 + qr, X = y2 + 2;
+  const size_t J1 = M255(r), J2 = J1 + M255(qr), J = J2 + 510;
+  CQV_STEP(X == o + q + 1 && X <= 8 * CQV_SZ, "lemma last step 7: X = o + q + 1");
+  CQV_STEP(M255(y1) == M255(o) + J1, "lemma last step 8a: 255(o+r)");
+  CQV_STEP(M255(y2) == M255(y1) + M255(qr), "lemma last step 8b: 255(o+r+qr) split");
+  CQV_STEP(M255(y2) == M255(o) + J2, "lemma last step 8c: 255(o+r+qr)");
+  CQV_STEP(M255(X) == M255(y2) + 510, "lemma last step 8d: 255X split");
+  CQV_STEP(M255(X) == M255(o) + J, "lemma last step 8: 255X = 255o + J");
+  CQV_STEP(M255(r) + r == (r << 8), "lemma last step 9: 255r + r = 256r");
+  CQV_STEP(J2 <= (r << 8) && J <= (r << 8) + 510, "lemma last step 10: J <= 256r + 510");
+  CQV_STEP((n << 8) == (a << 8) + (r << 8), "lemma last step 11: 256n = 256a + 256r");
+  CQV_STEP(M255(o) <= CQV_BIG && (a << 8) <= CQV_BIG && (r << 8) <= CQV_BIG, "lemma last step 12: no wrap");
+  CQV_STEP(M255(o) + J <= (a << 8) + (r << 8) + 510, "lemma last step 13: sum of the inequalities");
+  CQV_STEP(M255(X) <= (n << 8) + 510, "lemma last step 14: 255X <= 256n + 510");
+  const size_t b1 = n + qn;
+  CQV_STEP(B == b1 + 16 && M255(b1) == M255(n) + M255(qn), "lemma last step 15: 255(n + n/255)");
+  CQV_STEP(M255(B) == M255(b1) + 4080, "lemma last step 16: 255B");
+  CQV_STEP(M255(n) + n == (n << 8), "lemma last step 17: 255n + n = 256n");
+  CQV_STEP((n << 8) + 3826 <= M255(B), "lemma last step 18: 256n + 3826 <= 255B");
+  CQV_STEP(M255(X) < M255(B), "lemma last step 19: 255X < 255B");
+  const size_t dX = X >= B ? X - B : 0;
+  CQV_STEP(X < B || M255(X) == M255(dX) + M255(B), "lemma last step 20: 255X = 255(X-B) + 255B when X >= B");
+  CQV_STEP(X < B, "lemma last step 21: X < B");
   __CPROVER_assert(LEM_LAST_ENS(n, cap, B, a, o, q), "lemma last: the last literal run fits below a bound-sized capacity");
 }
 void h_lemma_post(void) {
   size_t n = nondet_size_t(), a = nondet_size_t(), o = nondet_size_t(), e = nondet_size_t(), r4 = nondet_size_t(), of = nondet_size_t();
   __CPROVER_assume(LEM_POST_REQ(n, a, o, e, r4, of));
   CQV_CANARY("lemma post: requires satisfiable");
+  const size_t r = n - a;
+  const size_t dO = o > a ? o - a : 0, dA = o > a ? 0 : a - o;
+  CQV_STEP(e <= r && r >= 12 && of <= 8 * CQV_SZ, "lemma post step 1: ranges");
+  CQV_STEP(M255(a) + a == (a << 8), "lemma post step 2: 255a + a = 256a");
+  CQV_STEP(o <= a || M255(o) == M255(dO) + M255(a), "lemma post step 3: 255o = 255(o-a) + 255a");
+  CQV_STEP(o > a || M255(a) == M255(dA) + M255(o), "lemma post step 4: 255a = 255(a-o) + 255o");
+  CQV_STEP(M255(o) <= (a << 8), "lemma post step 5: hypothesis in product form 255o <= 256a");
+  CQV_STEP(M255(e) <= r + 240, "lemma post step 6: 255e <= r + 240");
+  const size_t y1 = o + e, y2 = y1 + r;
+  const size_t J1 = M255(e), J2 = J1 + M255(r), J = J2 + 255;
+  CQV_STEP(of == y2 + 1, "lemma post step 7: of = o + e + r + 1");
+  CQV_STEP(M255(y1) == M255(o) + J1, "lemma post step 8a: 255(o+e)");
+  CQV_STEP(M255(y2) == M255(y1) + M255(r), "lemma post step 8b: 255(o+e+r) split");
+  CQV_STEP(M255(y2) == M255(o) + J2, "lemma post step 8c: 255(o+e+r)");
+  CQV_STEP(M255(of) == M255(y2) + 255, "lemma post step 8d: 255*of split");
+  CQV_STEP(M255(of) == M255(o) + J, "lemma post step 8: 255*of = 255o + J");
+  CQV_STEP(M255(r) + r == (r << 8), "lemma post step 9: 255r + r = 256r");
+  CQV_STEP(J2 <= (r << 8) + 240 && J <= (r << 8) + 495, "lemma post step 10: J <= 256r + 495");
+  CQV_STEP((n << 8) == (a << 8) + (r << 8), "lemma post step 11: 256n = 256a + 256r");
+  CQV_STEP(M255(o) <= CQV_BIG && (a << 8) <= CQV_BIG && (r << 8) <= CQV_BIG, "lemma post step 12: no wrap");
+  CQV_STEP(M255(o) + J <= (a << 8) + (r << 8) + 495, "lemma post step 13: sum of the inequalities");
+  CQV_STEP(M255(of) <= (n << 8) + 495, "lemma post step 14: 255*of <= 256n + 495");
+  const size_t d = of > n + 16 ? of - n - 16 : 0, z1 = d + n;
+  CQV_STEP(M255(n) + n == (n << 8), "lemma post step 15: 255n + n = 256n");
+  CQV_STEP(of <= n + 16 || (of == z1 + 16 && M255(z1) == M255(d) + M255(n)), "lemma post step 16: 255(d + n)");
+  CQV_STEP(of <= n + 16 || M255(of) == M255(z1) + 4080, "lemma post step 17: 255*of = 255(d+n) + 4080");
+  CQV_STEP(of <= n + 16 || M255(d) + M255(n) + 4080 <= M255(n) + n + 495, "lemma post step 18: substitute");
+  CQV_STEP(of <= n + 16 || M255(d) <= n, "lemma post step 19: cancel 255n");
   __CPROVER_assert(LEM_POST_ENS(n, a, o, e, r4, of), "lemma post: total size <= n + n/255 + 16");
 }
 
